@@ -101,6 +101,15 @@ CHECKS.update({
     ),
 })
 
+CHECKS.update({
+    "C13": (
+        "Hypothesis circuit generator per exporter gate set + compiled functions; differential oracle: own dense unitary vs qiskit Operator / cirq.unitary (bit-reversed) / sympy represent, and a reader of the emitted QASM dialect",
+        "Generated circuits and compiled functions (aliased, dotted and re-defined qubit names) are exported to Qiskit, Cirq and Sympy (circuit and gate) and QASM 2/3 (circuit and gate); the exported object must have the reference unitary on the same qubit indices, QASM must declare one formal per qubit in index order and list the same operations, qubits and parameters. Sampled over circuits (<=5..7 qubits) and targets.",
+        "Trusts the frameworks' own interpretation of their objects and the dense simulator; the library's QASM dialect is the contract; qutip/pennylane exporters cannot run here and are not claimed.",
+        "DESIGN.md section 3 C13",
+    ),
+})
+
 NOT_YET = "check not built yet in this session (work in progress; see DESIGN.md section 3)"
 
 
